@@ -258,9 +258,25 @@ class _TypeInferInstance(Visitor):
                 first = cast(Type, elt_tys[0])
                 if any(e != first for e in elt_tys):
                     return None
+                # type equality ignores lengths: the rows of a ragged list
+                # are equal types, and only a length every row has is stated
+                for e in elt_tys[1:]:
+                    first = self._common_lengths(first, cast(Type, e))
                 return ListType(first, len(val))
             case _:
                 return None
+
+    def _common_lengths(self, a: Type, b: Type) -> Type:
+        """`a`, keeping a list length only where `b` (an equal type) has the
+        same one."""
+        match a, b:
+            case ListType(), ListType():
+                elt = self._common_lengths(a.elt, b.elt)
+                return ListType(elt, a.length if a.length == b.length else None)
+            case TupleType(), TupleType():
+                return TupleType(*[self._common_lengths(x, y) for x, y in zip(a.elts, b.elts)])
+            case _:
+                return a
 
     def _resolve_type(self, ty: Type):
         match ty:
@@ -657,7 +673,11 @@ class _TypeInferInstance(Visitor):
         if e.stop is not None:
             stop_ty = self._visit_expr(e.stop, None)
             self._unify(stop_ty, RealType(None))
-        # same type as value_ty
+        # same type as value_ty -- but not the same length: a slice of a list
+        # of known length is as long as its endpoints say
+        resolved = self._resolve_type(value_ty)
+        if isinstance(resolved, ListType) and resolved.length is not None:
+            return ListType(resolved.elt)
         return value_ty
 
     def _visit_if_expr(self, e: IfExpr, ctx: None) -> Type:
